@@ -763,6 +763,47 @@ func extraChecks() {
 			violation(path+":if-unsigned:verify-fails", "%s", res.brief())
 		}
 	}
+	// `relic verify` with several files: the exit status must say so if ANY of them
+	// failed, whatever its position; good files are still reported OK
+	{
+		dir := filepath.Join(scratch, "multiverify")
+		good1, good2, bad := filepath.Join(dir, "good1.ps1"), filepath.Join(dir, "good2.ps1"), filepath.Join(dir, "bad.ps1")
+		for _, f := range []string{good1, good2, bad} {
+			copyFile(filepath.Join(packages, "hello.ps1"), f)
+			if res := relic("sign", "-c", filepath.Join(scratch, "standalone.yml"), "-k", "rsaA", "-f", f); res.rc != 0 {
+				violation("verify:multi:setup-sign-fails", "%s", res.brief())
+				return
+			}
+		}
+		// damage the script text of one file (first byte of the body)
+		if b, err := os.ReadFile(bad); err == nil && len(b) > 0 {
+			b[0] ^= 0x01
+			os.WriteFile(bad, b, 0o644)
+		}
+		root := filepath.Join(keyDir, "root.crt")
+		for _, order := range [][]string{{bad}, {good1, bad}, {bad, good1}, {good1, bad, good2}, {good1, good2}} {
+			res := relic(append([]string{"verify", "--cert", root}, order...)...)
+			hasBad := false
+			var names []string
+			for _, f := range order {
+				names = append(names, filepath.Base(f))
+				if f == bad {
+					hasBad = true
+				}
+			}
+			if hasBad && res.rc == 0 {
+				violation("verify:multi:exit-0-although-a-file-failed", "relic verify %s: exit 0 although bad.ps1 does not verify", strings.Join(names, " "))
+			}
+			if !hasBad && res.rc != 0 {
+				violation("verify:multi:good-files-fail", "relic verify %s: %s", strings.Join(names, " "), res.brief())
+			}
+			for _, f := range order {
+				if f != bad && !strings.Contains(res.stdout, filepath.Base(f)+": OK") {
+					violation("verify:multi:good-file-not-reported-ok", "relic verify %s: no OK line for %s", strings.Join(names, " "), filepath.Base(f))
+				}
+			}
+		}
+	}
 }
 
 var remoteURL string
